@@ -8,6 +8,9 @@ Four parts (shares of the budget n, a "case" is one compared conversion):
     Documents come from gen/docs.py: stateful constructs over small label pools, so that later documents use labels
     (link references, footnotes, abbreviations, header ids) which earlier ones defined.
     Footnotes' UNIQUE_IDS is never set (documented to differ).
+    35 % of the histories have a FOCUS: one construct kind (chosen among those the loaded extensions render through state of their own:
+    fences for fenced_code/codehilite, footnotes, abbreviations, headings/[TOC], attribute lists, tables, ...) is added to nearly every
+    document, so that whatever an earlier document left behind meets the same construct again.
     RAISING conversions are part of the histories (F-C11-1 is fixed: nothing is suppressed).  About one step in eight is a
     "raiser": a deeply nested document (nested bullet/ordered lists, definition lists, admonitions, md_in_html containers,
     a list inside a footnote body; 20-90 levels, stateful constructs before and after it) converted under a recursion
@@ -348,9 +351,9 @@ def search(driver, rng, n):
     dist = {'histories': 0, 'raised': {}, 'raisers': {}, 'hostile_option': 0, 'steps_after_raise': 0, 'hist_len': {}, 'pieces': {}, 'ext_count': {}, 'census_new': {}, 'nonempty_toc': 0, 'nonempty_meta': 0,
             'interleave_rounds': 0, 'construct_only': 0, 'shared_state_written': [], 'hashseed_pairs': 0, 'empty_out': 0, 'options_set': 0}
     viol = []; samples = []; seen = set(); cases = 0
-    n_hash = max(6, min(150, n // 12))
+    n_hash = max(6, min(300, n // 6))          # three short child processes: cheap
     n_inter = n * 15 // 100
-    n_hist = max(1, n - n_inter - n_hash)
+    n_hist = max(1, n - n_inter - n_hash // 2)
 
     # 1 + 2: histories and census
     while cases < n_hist:
@@ -371,6 +374,10 @@ def search(driver, rng, n):
             dist['config_rejected:' + type(e).__name__] = dist.get('config_rejected:' + type(e).__name__, 0) + 1
             continue
         history = []; hviol = []; raised_before = False
+        # FOCUS (35 % of the histories): one kind of construct, chosen among those that the loaded extensions render through state of
+        # their own, is appended to (nearly) every document of the history, the compared ones included
+        focus = rng.choice(D.focus_pieces(cfg['extensions'])) if rng.random() < 0.35 else None
+        if focus is not None: dist['focus'] = dist.get('focus', {}); dist['focus'][focus.__name__] = dist['focus'].get(focus.__name__, 0) + 1
         for step in range(L + 1):
             if step < L and rng.random() < 0.12:
                 # a raiser in the middle of the history: not compared itself, the following steps are
@@ -382,6 +389,9 @@ def search(driver, rng, n):
                 history.append(r)
                 continue
             d = D.document(rng, counters=dist['pieces'])
+            if focus is not None and rng.random() < 0.85:
+                piece = focus(rng)
+                d = (piece + '\n\n' + d) if focus is D.p_meta else (d + '\n\n' + piece)
             got = observe_safe(md, d)
             want = observe_safe(D.make(cfg), d)
             cases += 1
@@ -457,7 +467,11 @@ def search(driver, rng, n):
         c = D.config(rng)
         try: D.make(c)
         except Exception: continue
-        for _ in range(3): pairs.append((c, D.document(rng, counters=dist['pieces'])))
+        focus = rng.choice(D.focus_pieces(c['extensions'])) if rng.random() < 0.5 else None     # as in the histories
+        for _ in range(3):
+            d = D.document(rng, counters=dist['pieces'])
+            if focus is not None: d = (focus(rng) + '\n\n' + d) if focus is D.p_meta else (d + '\n\n' + focus(rng))
+            pairs.append((c, d))
     pairs = pairs[:n_hash]
     try:
         bad = _hashseed_check(pairs)
